@@ -130,11 +130,13 @@ def gen_library(seed, cfg=None):
     for _ in range(r.randrange(1, 3)):
         out += g.function()
         out.append("")
-    # an uncalled function and a __main__ block: both must contribute nothing
-    out += ["def never_called(a):", "    d5.Setting = a + 99", "    return a", ""]
+    # an uncalled function and a __main__ block: both must contribute nothing - in particular the
+    # constants they assign to the library's globals must not reach the live reads of those globals
+    consts = [v for v in g.global_vars if v in g.constish_vars]
+    out += ["def never_called(a):"] + ([f"    global {consts[0]}", f"    {consts[0]} = {r.randrange(200, 300)}"] if consts else []) + ["    d5.Setting = a + 99", "    return a", ""]
     for _ in range(r.randrange(0, 3)):
         out.append(f"d{r.randrange(6)}.{r.choice(gen.LOGIC_RW)} = {r.choice(gsc.vars)}")
-    out += ["", 'if __name__ == "__main__":', "    d4.Setting = 12345"]
+    out += ["", 'if __name__ == "__main__":', "    d4.Setting = 12345"] + [f"    {c} = {r.randrange(300, 400)}" for c in consts[-1:]]
     if g.funcs:
         f = g.funcs[0]
         out.append(f"    {f[0]}({', '.join('1' for _ in range(f[1]))})")
@@ -175,6 +177,56 @@ WITNESS = {
                             "globals of a library module get line-based lifetimes: a later top-level temporary reuses the register of a global that functions still read"),
     "lib_call_in_function": ({"": HDR + "from library import lib0\n\ndef g(x):\n    lib0.f(x)\n\ng(d0.Setting)\ng(1)\n", "lib0": HDR + "\ndef f(a):\n    db.Setting = a\n"},
                              "a library function called from inside a function of the main file is rejected ('Calling undefined function')"),
+}
+
+# a library whose stand-alone block / never-called function assign other constants to its globals
+FIXED_DEAD_CONST = {
+    "": HDR + """from library import thermo
+from library import modes as md
+
+while True:
+    yield_()
+    thermo.update()
+    md.update()
+""",
+    "thermo": HDR + """
+threshold = 50
+
+def update():
+    db.Setting = d0.Temperature > threshold
+    db.Mode = threshold + 1
+
+if __name__ == "__main__":
+    threshold = 20
+    while True:
+        update()
+""",
+    "modes": HDR + """
+mode = 1
+
+def set_fast():
+    global mode
+    mode = 2
+
+def update():
+    d1.Setting = mode * 10
+""",
+}
+
+# top-level library code with visible effects: runs in import order, not in name order
+FIXED_IMPORT_ORDER = {
+    "": HDR + """from library import zeta
+from library import alpha as beta
+from library import mid as aaa
+
+db.Mode = 1
+zeta.bump()
+beta.bump()
+aaa.bump()
+""",
+    "zeta": HDR + "\ncount = 0\ndb.Setting = 5\n\ndef bump():\n    global count\n    count = count + 1\n    db.On = count\n",
+    "alpha": HDR + "\ncount = 100\ndb.Setting = db.Setting * 2\n\ndef bump():\n    global count\n    count = count + 1\n    db.Open = count\n",
+    "mid": HDR + "\ncount = 7\ndb.Setting = db.Setting + 3\n\ndef bump():\n    global count\n    count = count + 1\n    db.Lock = count\n",
 }
 
 FIXED_MULTI = {
@@ -240,7 +292,7 @@ def run(tier: str) -> int:
     rep.assumptions = ASSUMPTIONS
     known = harness.known_for(PROP)
     n = 150 if tier == "thorough" else 20
-    progs = [("fixed:two_libs", FIXED_MULTI, [])]
+    progs = [("fixed:two_libs", FIXED_MULTI, []), ("fixed:dead_constants", FIXED_DEAD_CONST, []), ("fixed:import_order", FIXED_IMPORT_ORDER, [])]
     for i in range(n):
         seed = harness.seed() * 9973 + i + 1
         srcs, feats = gen_multi(seed)
